@@ -23,8 +23,8 @@ long, never the exact capacity, so "same transport read ⇒ first byte buffered"
     stored in `c.in.err` (the next Read simply goes on);
   * warning alerts are dropped inside `readRecord` (`goto Again`), at most `maxWarnAlertCount = 5` in a row;
     the counter is reset by a non-alert record with NON-EMPTY payload only;
-  * the end of the transport at a record boundary (or inside a 5-byte header) is `io.EOF`, the same value as
-    close_notify; inside a record body it is `io.ErrUnexpectedEOF`;
+  * the end of the transport at a record boundary is `io.EOF`, the same value as close_notify; inside a record
+    — inside its 5-byte header (conn.go 602-612) or inside its body (647-655) — it is `io.ErrUnexpectedEOF`;
   * `readHandshake` skips EMPTY handshake records without any limit;
   * `readHandshake` looks at `c.in.err` only while `c.hand` is too short.
 Core Lean only; executable; structural recursion throughout (so `decide` can run it).
@@ -44,8 +44,8 @@ def maxHandshake : Nat := 65536
 
 /-- classes of the `error` values that `Conn.Read` / `readHandshake` / `readRecord` return -/
 inductive Err
-  | eof                -- io.EOF: close_notify, or the transport ended at a record boundary / inside a header
-  | unexpectedEOF      -- io.ErrUnexpectedEOF: the transport ended inside a record body
+  | eof                -- io.EOF: close_notify, or the transport ended at a record boundary
+  | unexpectedEOF      -- io.ErrUnexpectedEOF: the transport ended inside a record (header or body)
   | remote             -- a fatal alert from the peer (`remote error`)
   | tooManyWarn        -- "tls: too many warn alerts"
   | unexpectedMessage  -- local alert 10
@@ -72,9 +72,14 @@ inductive Rec
   /-- anything on which `readRecord` stores the sticky error `e` and returns it: a fatal alert (`remote`), a
       record refused by `decrypt` (`badRecord`), a handshake record on an endpoint that does not renegotiate
       (`noRenegotiation`), ChangeCipherSpec (`unexpectedMessage`), the transport ending inside this record
-      (`eof` inside the header, `unexpectedEOF` inside the body).  `alertTyped`: the first wire byte is 21. -/
+      (`unexpectedEOF`, inside the header as well as inside the body: `Rec.truncated`).  `alertTyped`: the first
+      wire byte is 21. -/
   | fail (alertTyped : Bool) (e : Err)
 deriving DecidableEq, Repr
+
+/-- the transport ends inside this record — after 1..4 bytes of its header or inside its body: `readRecord`
+    stores and returns `io.ErrUnexpectedEOF` in both cases (conn.go 602-612, 647-655) -/
+def Rec.truncated (alertTyped : Bool) : Rec := .fail alertTyped .unexpectedEOF
 
 /-- is the first wire byte `recordTypeAlert`? -/
 def Rec.alertTyped : Rec → Bool
@@ -191,14 +196,15 @@ inductive HRec
   | warning
   /-- `readRecord` consumes this record and fails with sticky error `e` (fatal alert, bad record, …) -/
   | fail (e : Err)
-  /-- the transport ends inside this record — inside its body (`io.ErrUnexpectedEOF`, conn.go 647-655) or inside
-      its 5-byte header (`io.EOF`, 602-612); the fragment stays in `c.rawInput`, every further `readRecord`
-      fails in the same way -/
+  /-- the transport ends inside this record — inside its body (conn.go 647-655) or after 1..4 bytes of its
+      5-byte header (602-612): `io.ErrUnexpectedEOF` in both cases; the fragment stays in `c.rawInput`, every
+      further `readRecord` fails in the same way -/
   | trunc (inBody : Bool)
 deriving DecidableEq, Repr
 
-/-- the error for a transport that ends inside a record -/
-def truncErr (inBody : Bool) : Err := if inBody then .unexpectedEOF else .eof
+/-- the error for a transport that ends inside a record: `io.ErrUnexpectedEOF`, wherever the cut is (a plain
+    `io.EOF` is kept for the end of the transport at a record boundary) -/
+def truncErr (_inBody : Bool) : Err := .unexpectedEOF
 
 structure HsBuf where
   /-- `c.hand` (a bytes.Buffer): handshake bytes received and not yet consumed -/
